@@ -268,6 +268,9 @@ def plan_C10(run):
 
 
 def plan_C11(run):
+    # symbolic (Apalache, every vector of N totally ordered values, auxiliary): the ranks predict_rank attaches are in 1..N, strictly
+    # better for a strictly larger value, shared by equal values, 1 for a maximal one, and depend on the values only through their order
+    mc.apalache_outcome(run, q(run, [3], [2, 3, 4, 5]), inv="Inv4")
     # spec -> code: the three predictions on every game over the cast (all shapes, up to 3 quick / 4 thorough teams), five models
     mc.lattice(run, "predict", ALL_KINDS, ["default"], q(run, 4, 5), q(run, 3, 4), style="predict", invariants=mc.INV_PREDICT)
     # corners of the numeric domain (saturated pairs beside wide ones, 16-player teams, beta over six orders of magnitude)
